@@ -59,7 +59,19 @@ func c18Body(r *Run) {
 		replyPub.FailAt[1+t.Int(8)] = PubErr // transient failures of the reply publisher
 	}
 	finished := map[int]int{}
+	// one run in three: failures of the reply publisher are tolerated by a ReplyPublishErrorHandler (it returns nil):
+	// the command is then settled as if the reply had been sent, i.e. as AckCommandErrors says
+	var tolerate requestreply.ReplyPublishErrorHandler
+	tolerated := map[*message.Message]bool{}
+	if len(replyPub.FailAt) > 0 && t.Chance(1, 3) {
+		tolerate = func(topic string, m *message.Message, err error) error {
+			tolerated[m] = true
+			r.Probe("reply-publish-error-tolerated")
+			return nil
+		}
+	}
 	backend, err := requestreply.NewPubSubBackend[c18Result](requestreply.PubSubBackendConfig{
+		ReplyPublishErrorHandler: tolerate,
 		Publisher:              replyPub,
 		SubscriberConstructor:  func(requestreply.PubSubBackendSubscribeParams) (message.Subscriber, error) { return ps, nil },
 		GeneratePublishTopic:   func(requestreply.PubSubBackendPublishParams) (string, error) { return "replies", nil },
@@ -236,7 +248,15 @@ func c18Body(r *Run) {
 		}
 		// R2 settlement policy
 		for _, h := range hs {
-			if h.pubCall == nil || h.pubCall.Err != nil {
+			toleratedFailure := false
+			if h.pubCall != nil && h.pubCall.Err != nil {
+				for _, m := range h.pubCall.Msgs {
+					if tolerated[m] {
+						toleratedFailure = true
+					}
+				}
+			}
+			if (h.pubCall == nil || h.pubCall.Err != nil) && !toleratedFailure {
 				// no reply was published for this delivery: the command must not be acked
 				if rawClosed(h.msg.Acked()) {
 					r.Fail("C18.R2", "the command was acked although its reply was never published", "caller %d attempt %d failed=%v replyPublishError=%v AckCommandErrors=%v", h.caller, h.attempt, h.failed, h.pubCall != nil, ackErrors)
